@@ -175,7 +175,7 @@ func cmdCheck(args []string) int {
 			outf := filepath.Join(scratch, fmt.Sprintf("o%d.json", i))
 			pj, _ := json.Marshal(ts.Params)
 			a := []string{"run", "-pkg", o.Pkg, "-fn", o.Fn, "-files", strings.Join(o.Files, ","), "-o", outf,
-				"-params", string(pj), "-known", string(knownJSON), "-grace-s", "60"}
+				"-params", string(pj), "-known", string(knownJSON), "-grace-s", "60", "-wall-s", oblLimit(tier)}
 			if tier == "thorough" {
 				r.dumpDir = filepath.Join(scratch, fmt.Sprintf("dump%d", i))
 				os.MkdirAll(r.dumpDir, 0o755)
@@ -463,6 +463,19 @@ func cmdCheck(args []string) int {
 	os.WriteFile(filepath.Join(evDir, prop+".json"), eb, 0o644)
 	fmt.Printf("%s tier=%s obligations=%d paths=%d queries=%d (unsat %d) wall=%.1fs exit=%d\n", prop, tier, len(results), paths, evals, nunsat, wall, exit)
 	return exit
+}
+
+// oblLimit is the wall-clock limit of one obligation's exploration (VF_OBL_LIMIT_S overrides): the
+// registered bounds finish well inside it on the unchanged tree; on a changed tree an obligation
+// whose path space explodes ends inconclusive instead of running for hours.
+func oblLimit(tier string) string {
+	if v := os.Getenv("VF_OBL_LIMIT_S"); v != "" {
+		return v
+	}
+	if tier == "thorough" {
+		return "7200"
+	}
+	return "1200"
 }
 
 func keysOf(m map[string]bool) []string {
